@@ -160,26 +160,53 @@ macro_rules! ensure {
 // ---------------------------------------------------------------------------------------------
 // known findings
 
-#[derive(Debug, Clone, Deserialize)]
+/// One line of /verif/known_findings.txt:
+///   open: property=<id> signature=<sig> <what fails>
+///   fixed: property=<id> <commit> <what failed>
+#[derive(Debug, Clone)]
 pub struct Finding {
     pub status: String, // "open" | "fixed"
     pub property: String,
-    #[serde(default)]
     pub signature: String,
-    #[serde(default)]
     pub commit: String,
     pub what: String,
 }
 
 pub fn load_findings() -> Vec<Finding> {
-    let p = format!("{}/known_findings.jsonl", VERIF_DIR);
+    let p = format!("{}/known_findings.txt", VERIF_DIR);
     let Ok(s) = std::fs::read_to_string(&p) else {
         return vec![];
     };
-    s.lines()
-        .filter(|l| !l.trim().is_empty() && !l.trim_start().starts_with('#'))
-        .filter_map(|l| serde_json::from_str::<Finding>(l).ok())
-        .collect()
+    let mut out = vec![];
+    for l in s.lines() {
+        let l = l.trim();
+        let (status, rest) = if let Some(r) = l.strip_prefix("open:") {
+            ("open", r.trim())
+        } else if let Some(r) = l.strip_prefix("fixed:") {
+            ("fixed", r.trim())
+        } else {
+            continue;
+        };
+        let mut words = rest.splitn(3, ' ');
+        let Some(prop) = words.next().and_then(|w| w.strip_prefix("property=")) else {
+            continue;
+        };
+        let second = words.next().unwrap_or("");
+        let what = words.next().unwrap_or("").to_string();
+        let (signature, commit) = if status == "open" {
+            (second.strip_prefix("signature=").unwrap_or(second).to_string(), String::new())
+        } else {
+            (String::new(), second.to_string())
+        };
+        out.push(Finding {
+            status: status.to_string(),
+            property: prop.to_string(),
+            signature,
+            commit,
+            what,
+        });
+    }
+    out
 }
 
 // ---------------------------------------------------------------------------------------------
